@@ -120,3 +120,72 @@ func verifC05(generic bool) {
 
 func verifH_C05_Failover()   { verifC05(false) }
 func verifH_C05_FailoverOf() { verifC05(true) }
+
+// The failure cache is not subject to the backend's eviction limits: with soft limits configured for
+// the backend (BackendConfig), failures of two keys stay remembered across cleanup cycles of every
+// cache instance the Failover owns, and are served inside the failure window without a rebuild.
+func verifC05Cleanup(generic bool) {
+	verifFloatIdeal()
+	clk := verifInstallClock(verifT0, verifT1, true)
+	verifRandFn = func() float64 { return 0.5 }
+	heapRead, sysRead := verifUint64("heapInuseReading"), verifUint64("sysReading")
+	verifMemStatsFn = func() (uint64, uint64) { return heapRead, sysRead }
+	bc := Config{ExpirationJitter: -1, EvictFraction: 0.5}
+	switch verifChoice("backendLimit", 3) {
+	case 0:
+		bc.CountSoftLimit = 1
+	case 1:
+		bc.HeapInUseSoftLimit = 1 + verifUint64("heapInUseSoftLimit")
+	default:
+		bc.SysMemSoftLimit = 1 + verifUint64("sysMemSoftLimit")
+	}
+	errBuild := errors.New("build failure")
+	builds := 0
+	ctx := context.Background()
+	keys := [2]string{"k1", "k2"}
+	get := func(k string) error { return nil }
+	cleanup := func() {}
+	if !generic {
+		f := NewFailover(FailoverConfig{BackendConfig: bc}.Use)
+		get = func(k string) error {
+			_, err := f.Get(ctx, []byte(k), func(ctx context.Context) (interface{}, error) {
+				builds++
+				return nil, errBuild
+			})
+			return err
+		}
+		cleanup = func() {
+			f.Errors.t.invokeCleanup()
+			f.backend.(*ShardedMap).t.invokeCleanup()
+		}
+	} else {
+		f := NewFailoverOf[int](FailoverConfigOf[int]{BackendConfig: bc}.Use)
+		get = func(k string) error {
+			_, err := f.Get(ctx, []byte(k), func(ctx context.Context) (int, error) {
+				builds++
+				return 0, errBuild
+			})
+			return err
+		}
+		cleanup = func() {
+			f.Errors.t.invokeCleanup()
+			f.backend.(*ShardedMapOf[int]).t.invokeCleanup()
+		}
+	}
+	for _, k := range keys {
+		err := get(k)
+		verifAssert("first Get of each key returns the builder error", err != nil && errors.Is(err, errBuild))
+	}
+	verifAssert("one build per key", builds == 2)
+	cleanup()
+	cleanup()
+	_ = clk
+	for _, k := range keys {
+		err := get(k)
+		verifReach("failure cache after cleanup cycles")
+		verifAssert("remembered failure survives cleanup cycles and is served without a rebuild", err != nil && errors.Is(err, errBuild) && builds == 2)
+	}
+}
+
+func verifH_C05_Cleanup()   { verifC05Cleanup(false) }
+func verifH_C05_CleanupOf() { verifC05Cleanup(true) }
